@@ -109,6 +109,9 @@ func tor(a ...*Term) *Term {
 	return mkBool("or", out...)
 }
 func teq(a, b *Term) *Term {
+	if a == b && a.s != sFP {
+		return tTrue
+	}
 	if a.op == "const" && b.op == "const" {
 		if a.s == sBV {
 			return boolConst(a.val == b.val)
